@@ -80,7 +80,7 @@ def check(run):
             hi = run.rng.choice([p for p in pts if p >= lo])
             plan.append(dict(op="point", fn="Clamp", ty=ty, v=str(run.rng.choice(pts)), lo=str(lo), hi=str(hi)))
     # (iv)/(v) floats and strings through order-embedded samples
-    for ty, n in (("float64", 13), ("float32", 13), ("string", 5)):
+    for ty, n in (("float64", 13), ("float32", 13), ("string", 5), ("int", 12), ("int64", 12), ("int32", 12), ("uint", 10), ("uint64", 10)):
         tr = [(a, b, c) for a in range(n) for b in range(n) for c in range(n)]
         if q:
             tr = run.rng.sample(tr, 300 if n > 5 else 125)
